@@ -126,6 +126,10 @@ def readC (img : Image) (cf : Nat → Content) (off : Int) (n : Nat) : M (Bytes 
     | .ok (s2, true) => .ok (s2.out, true)
     | .ok (s2, false) => tailPartC img s2
 
+/-- VirtualISO.ReadAt: a negative offset is an error before `read` is entered -/
+def readAtC (img : Image) (cf : Nat → Content) (off : Int) (n : Nat) : M (Bytes × Bool) :=
+  if off < 0 then .ok ([], true) else readC img cf off n
+
 /-! ### EncryptedISO / ISO3k3y in-place transformations: the index sets they touch -/
 
 /-- clearRegionsData(start, data): `for i := 0; i < hdr-start && i < len(data); i++ { data[i] = 0 }` -/
